@@ -86,10 +86,10 @@ def rule_tokens(ctx):
     vb = printers.display_impl(fx, "fol", "Variable")
     vt = printers.token_table(printers.evaluate(fx, vb).value) or {}
     st = printers.token_table(printers.evaluate(fx, printers.display_impl(fx, "fol", "Sort")).value) or {}
-    ok = vt == {"Sort::General": "{name}", "Sort::Integer": "{name}$" + st.get("Sort::Integer", "?"), "Sort::Symbol": "{name}$" + st.get("Sort::Symbol", "?")}
+    ok = vt == {"Sort::General": "{}", "Sort::Integer": "{}$" + st.get("Sort::Integer", "?"), "Sort::Symbol": "{}$" + st.get("Sort::Symbol", "?")}
     ctx.add("PRN-K", "Variable:suffix", ok, ctx.site(vb), "variables are printed name, name$i, name$s with the sort tokens %s" % st)
-    occ = {"IntegerTerm": ("IntegerTerm::Variable(_)", "{v}$i", "IntegerTerm::FunctionConstant(_)", "{c}$i"), "SymbolicTerm": ("SymbolicTerm::Variable(_)", "{v}$s", "SymbolicTerm::FunctionConstant(_)", "{c}$s"),
-           "GeneralTerm": ("GeneralTerm::Variable(_)", "{v}", "GeneralTerm::FunctionConstant(_)", "{c}$g")}
+    occ = {"IntegerTerm": ("IntegerTerm::Variable(_)", "{}$i", "IntegerTerm::FunctionConstant(_)", "{}$i"), "SymbolicTerm": ("SymbolicTerm::Variable(_)", "{}$s", "SymbolicTerm::FunctionConstant(_)", "{}$s"),
+           "GeneralTerm": ("GeneralTerm::Variable(_)", "{}", "GeneralTerm::FunctionConstant(_)", "{}$g")}
     for ty, (vk, vtok, ck, ctok) in occ.items():
         t = printers.token_table(printers.evaluate(fx, printers.display_impl(fx, "fol", ty)).value) or {}
         ctx.add("PRN-K", "occurrence:" + ty, t.get(vk) == vtok and t.get(ck) == ctok, ctx.site(printers.display_impl(fx, "fol", ty)), "%s prints variables as `%s` and placeholders as `%s`" % (ty, t.get(vk), t.get(ck)))
@@ -226,7 +226,7 @@ def rule_lists(ctx):
     # comparison / guard / quantification spacing
     cb = printers.display_impl(fx, "fol", "Comparison")
     cp = printers.evaluate(fx, cb)
-    ctx.add("LIST", "Comparison", [i[1] for _, _, i in cp.out if i[0] == "write"] == ["{}", " {guard}"], ctx.site(cb), "a comparison is its term followed by ` guard` for every guard")
+    ctx.add("LIST", "Comparison", [i[1] for _, _, i in cp.out if i[0] == "write"] == ["{}", " {}"], ctx.site(cb), "a comparison is its term followed by ` guard` for every guard")
     gb = printers.display_impl(fx, "fol", "Guard")
     gv = printers.evaluate(fx, gb).value
     ctx.add("LIST", "Guard", gv[:2] == ("write", "{} {}") and "relation" in repr(gv[2][0]) and "term" in repr(gv[2][1]), ctx.site(gb), "a guard is `relation term`")
